@@ -13,7 +13,91 @@ def run(ctx):
                      'browse-name helpers is discharged by a guard or a reviewed disposition (captures of groups that are not optional in '
                      'the constant regular expression; the flag characters the expression admits). The printer (String::from(&RelativePath)) is '
                      'included in the inventory: its unwrap of the browse-name resolver is a listed known finding. Equality of the text round '
-                     'trip is not decided.')
+                     'trip is not decided, except one structural clause: the notation tables of printer and parser (shorthands and flags) agree.')
     r.rule_text = 'E1 panic-site inventory over the relative path parser'
     run_e1(ctx, ENTRY)
+    flag_tables(ctx)
+    r.floor('flag-table-agreement', 'notation_tokens', r.counts.get('notation_tokens', 0), 10)
     r.floor('E1-panic', 'reachable_bodies', r.counts.get('reachable_bodies', 0), 8)
+
+
+def flag_tables(ctx, rule='flag-table-agreement'):
+    """the printer's choice of '/', '.', '#', '!' and the parser's reading of them must describe the same
+    (reference type, include_subtypes, is_inverse) triples - read from the push sites of the printer and the tuple
+    constructions of the parser, with the conditions that dominate them"""
+    import re
+    from ..facts import fmt_lit, fmt_sym
+    r, db = ctx.r, ctx.db
+    pb = db.find_bodies(r'RelativePathElement>::relative_path_reference_type$')
+    qb = db.find_bodies(r'RelativePathElement>::from_str$')
+    if not pb or not qb:
+        r.lost(rule, 'functions', 'printer / parser of RelativePathElement not found'); return
+    pb, qb = pb[0], qb[0]
+    Fp, Fq = ctx.facts(pb), ctx.facts(qb)
+    # ---- printer: char -> conditions
+    printer = {}
+    for c in pb.calls():
+        if c.callee.endswith('String::push') and len(c.args) == 2:
+            ch = Fp.sym_operand(c.args[1])
+            if ch[0] != 'k' or ch[2] != 'char':
+                continue
+            cond = {}
+            for l, e in Fp.literals_at(c.bb):
+                t = fmt_lit(pb, l)
+                m = re.match(r'^\(\*self\(_1\)\)\.(include_subtypes|is_inverse) == (True|False)$', t)
+                if m:
+                    cond[m.group(1)] = m.group(2) == 'True'
+                m = re.match(r'^\(\*self\(_1\)\)\.reference_type_id eq Into::into\(ReferenceTypeId::(\w+)\)$', t)
+                if m:
+                    cond['reftype'] = m.group(1)
+            printer[chr(int(ch[1]))] = cond
+    # ---- parser: token -> (reftype?, include_subtypes, is_inverse)
+    parser = {}
+    for bi, blk in enumerate(qb.blocks):
+        if blk['c']:
+            continue
+        for si, st in enumerate(blk['s']):
+            if st[0] == '=' and st[2][0] == 'agg' and st[2][1] == 'tuple' and len(st[2][4]) in (2, 3):
+                ops = [Fq.sym_operand(o) for o in st[2][4]]
+                bools = [o for o in ops if o[0] == 'k' and o[2] == 'bool']
+                if len(bools) != 2:
+                    continue
+                vals = tuple(b_[1] in ('1', 'true') for b_ in bools)
+                ref = None
+                if len(ops) == 3:
+                    m = re.search(r'ReferenceTypeId::(\w+)', fmt_sym(qb, ops[0]))
+                    ref = m.group(1) if m else None
+                tok = None
+                for l, e in Fq.literals_at(bi, si):
+                    t = fmt_lit(qb, l)
+                    m = re.search(r'"(reftype|flags)"\)+(@Some\.0)? eq "([^"]*)"$', t)
+                    if m:
+                        tok = m.group(3)
+                    if re.search(r'"flags"\) is None$', t):
+                        tok = ''
+                if tok is not None:
+                    parser[tok] = (ref, vals[0], vals[1])
+    need_p = {'/', '.', '#', '!'}
+    need_q = {'/', '.', '#', '!', '#!', ''}
+    if not need_p <= set(printer) or not need_q <= set(parser):
+        r.lost(rule, 'tables', 'printer pushes %s, parser tokens %s: expected %s / %s' % (sorted(printer), sorted(parser), sorted(need_p), sorted(need_q))); return
+    probs = []
+    # shorthands
+    for ch in ('/', '.'):
+        pc = printer[ch]; ref, inc, inv = parser[ch]
+        if pc.get('reftype') != ref or pc.get('include_subtypes') is not inc or pc.get('is_inverse') is not inv:
+            probs.append("'%s' is printed for %s but parsed as (%s, include_subtypes=%s, is_inverse=%s)" % (ch, pc, ref, inc, inv))
+    # flags inside <...>
+    if printer['#'].get('include_subtypes') is not False or 'is_inverse' in printer['#']:
+        probs.append("'#' is printed under %s, it must mean exactly include_subtypes == false" % printer['#'])
+    if printer['!'].get('is_inverse') is not True or 'include_subtypes' in printer['!']:
+        probs.append("'!' is printed under %s, it must mean exactly is_inverse == true" % printer['!'])
+    for tok in ('#', '!', '#!', ''):
+        ref, inc, inv = parser[tok]
+        if inc is not ('#' not in tok) or inv is not ('!' in tok):
+            probs.append("flags '%s' are parsed as include_subtypes=%s, is_inverse=%s" % (tok, inc, inv))
+    if probs:
+        r.fail(rule, 'RelativePathElement', 'printer and parser disagree on the reference-type notation: ' + '; '.join(probs[:3]), loc=pb.loc)
+    else:
+        r.ok(rule, 'RelativePathElement', "'/', '.', '#', '!' are printed for exactly the (reference type, include_subtypes, is_inverse) triples they are parsed as", loc=pb.loc)
+    r.count('notation_tokens', len(printer) + len(parser))
